@@ -162,6 +162,9 @@ Definition ren (r : list (string * string)) (s : string) : string :=
 Definition sigma (r : list (string * string)) (col : list string) (s : string) : string :=
   if mem s col then ren r s else s.
 
+(* the Symbol keys of parameter_defaults: {par for par in parameter_defaults if isinstance(par, sp.Symbol)} *)
+Definition par_syms (k : expr) : list string := match k with Sym s => [s] | _ => [] end.
+
 (* symbol_mapping.get(par, par) for a key of parameter_defaults *)
 Definition kmap (sg : string -> string) (k : expr) : expr :=
   match k with Sym s => Sym (sg s) | _ => k end.
@@ -186,11 +189,15 @@ Section Rename.
   Definition expression (m : model) : expr :=
     subst (amplitudes m) (unfold (intensity m)).
 
-  (* HelicityModel.__collect_symbols *)
+  (* HelicityModel.__collect_symbols: free symbols of the expression, the kinematic variables and
+     the free symbols of their definitions, and the Symbol keys of parameter_defaults (a parameter
+     may occur nowhere else, e.g. the parent mass with scalar_initial_state_mass=True).  The
+     symbols of `components` are NOT collected. *)
   Definition collect (m : model) : list string :=
     fs [] (expression m)
       ++ map fst (kinematic_variables m)
-      ++ flat_map (fun kv => fs [] (snd kv)) (kinematic_variables m).
+      ++ flat_map (fun kv => fs [] (snd kv)) (kinematic_variables m)
+      ++ flat_map (fun kv => par_syms (fst kv)) (parameter_defaults m).
 
   Definition sigma_of (m : model) (r : list (string * string)) : string -> string :=
     sigma r (collect m).
